@@ -176,7 +176,7 @@ var (
 )
 
 func runPublication(r *vk.Run) {
-	n := r.Pick(4000, 150000)
+	n := r.Pick(4000, 450000)
 	for i := 0; i < n; i++ {
 		if !r.Mine(i) {
 			continue
